@@ -50,7 +50,7 @@ def cases(tier, seed):
 def run_case(c, mon=MON, prefix=PREFIX):
     ex = explore.Explorer(c['pid'], c['depth'], c['slow'], c.get('merge'), mon)
     ex.run_root(c['first'])
-    viol = [V(cls, '%s | pool %d history %s' % (detail, c['pid'], json.dumps(hist))) for cls, (hist, detail) in ex.viol.items() if cls.startswith(prefix)]
+    viol = [V(cls, '%s | pool %d history %s' % (detail, c['pid'], json.dumps(hist))) for cls, (hist, detail) in ex.viol.items() if cls.startswith(prefix) or cls.startswith('glob.')]
     return Outcome(sorted(ex.states), False, 'raised=%d' % (1 if ex.raised else 0), transitions=ex.transitions, compared=ex.monitor_evals,
                    violations=viol, nt_keys=sorted(ex.nontrivial_states),
                    extra={'raising_transitions': ex.raised, 'distinct_event_outcomes': len(ex.outcomes)})
